@@ -2,6 +2,7 @@
 
 #include <array>
 #include <cstring>
+#include <limits>
 #include <memory>
 #include <type_traits>
 #include <utility>
@@ -587,9 +588,13 @@ private:
     }
 
     // elements in sandbox memory have the size given by the sandbox's ABI
-    detail::check_range_doesnt_cross_app_sbx_boundary<T_Sbx>(
-      start,
-      count * sizeof(tainted_volatile<T_CopyAndVerifyRangeEl, T_Sbx>));
+    constexpr size_t el_size =
+      sizeof(tainted_volatile<T_CopyAndVerifyRangeEl, T_Sbx>);
+    detail::dynamic_check(count <=
+                            std::numeric_limits<size_t>::max() / el_size,
+                          "Element count overflows the address space");
+    detail::check_range_doesnt_cross_app_sbx_boundary<T_Sbx>(start,
+                                                             count * el_size);
 
     return start;
   }
